@@ -8,7 +8,7 @@ set_option linter.unusedSimpArgs false
 
 /-- states reachable under every schedule and every spurious wake-up -/
 inductive Reachable (n gens : Nat) : State → Prop
-  | init : Reachable n gens (BarM.init n gens)
+  | init (ay : Nat) : Reachable n gens (BarM.init n gens ay)
   | step {s t c o} : Reachable n gens s → step s t c = some o → Reachable n gens o.st
 
 /-! ### generic list lemmas -/
@@ -64,7 +64,9 @@ theorem pcOf_eq (s : State) (t : Nat) : pcOf s t = (getT s.thr t).pc := by
 @[simp] theorem upd_owner (s : State) (t : Nat) (f : Thread → Thread) : (upd s t f).owner = s.owner := rfl
 @[simp] theorem upd_ws (s : State) (t : Nat) (f : Thread → Thread) : (upd s t f).ws = s.ws := rfl
 @[simp] theorem upd_spawned (s : State) (t : Nat) (f : Thread → Thread) : (upd s t f).spawned = s.spawned := rfl
+@[simp] theorem upd_begun (s : State) (t : Nat) (f : Thread → Thread) : (upd s t f).begun = s.begun := rfl
 @[simp] theorem upd_actions (s : State) (t : Nat) (f : Thread → Thread) : (upd s t f).actions = s.actions := rfl
+@[simp] theorem upd_actYields (s : State) (t : Nat) (f : Thread → Thread) : (upd s t f).actYields = s.actYields := rfl
 @[simp] theorem upd_count (s : State) (t : Nat) (f : Thread → Thread) (i : Nat) : count (upd s t f) i = count s i := rfl
 
 @[simp] theorem setCount_thr (s : State) (i v : Nat) : (setCount s i v).thr = s.thr := rfl
@@ -74,7 +76,9 @@ theorem pcOf_eq (s : State) (t : Nat) : pcOf s t = (getT s.thr t).pc := by
 @[simp] theorem setCount_owner (s : State) (i v : Nat) : (setCount s i v).owner = s.owner := rfl
 @[simp] theorem setCount_ws (s : State) (i v : Nat) : (setCount s i v).ws = s.ws := rfl
 @[simp] theorem setCount_spawned (s : State) (i v : Nat) : (setCount s i v).spawned = s.spawned := rfl
+@[simp] theorem setCount_begun (s : State) (i v : Nat) : (setCount s i v).begun = s.begun := rfl
 @[simp] theorem setCount_actions (s : State) (i v : Nat) : (setCount s i v).actions = s.actions := rfl
+@[simp] theorem setCount_actYields (s : State) (i v : Nat) : (setCount s i v).actYields = s.actYields := rfl
 
 theorem count_setCount (s : State) (i v j : Nat) (hi : i ≤ 1) (hj : j ≤ 1) :
     count (setCount s i v) j = if i = j then v else count s j := by
@@ -83,11 +87,12 @@ theorem count_setCount (s : State) (i v j : Nat) (hi : i ≤ 1) (hj : j ≤ 1) :
 
 /-- program counters at which the thread owns the mutex -/
 def holds : Pc → Bool
-  | .cvwait _ | .notify | .unlock => true
+  | .cvwait _ | .act _ | .notify | .unlock => true
   | _ => false
 
 @[simp] theorem holds_cvwait (c : Nat) : holds (.cvwait c) = true := rfl
 @[simp] theorem holds_notify : holds .notify = true := rfl
+@[simp] theorem holds_act (j : Nat) : holds (.act j) = true := rfl
 @[simp] theorem holds_unlock : holds .unlock = true := rfl
 @[simp] theorem holds_start : holds .start = false := rfl
 @[simp] theorem holds_finished : holds .finished = false := rfl
@@ -117,10 +122,11 @@ def pcOk (s : State) (th : Thread) : Prop :=
   match th.pc with
   | .start => th.arrived = 0 ∧ th.left = 0
   | .lock => th.arrived = th.left ∧ th.left < s.gens
-  | .cvwait cur => th.arrived = th.left + 1 ∧ cur = th.left % 2 ∧ th.left < s.gens ∧ th.left = s.actions
+  | .cvwait cur => th.arrived = th.left + 1 ∧ cur = th.left % 2 ∧ th.left < s.gens ∧ th.left = s.begun ∧ s.begun = s.actions
   | .waiting cur => th.arrived = th.left + 1 ∧ cur = th.left % 2 ∧ th.left < s.gens
-  | .notify => th.arrived = th.left + 1 ∧ th.left + 1 ≤ s.actions ∧ th.left < s.gens
-  | .unlock => th.arrived = th.left + 1 ∧ th.left + 1 ≤ s.actions ∧ th.left < s.gens
+  | .act _ => th.arrived = th.left + 1 ∧ th.left + 1 = s.begun ∧ th.left < s.gens ∧ s.begun = s.actions + 1
+  | .notify => th.arrived = th.left + 1 ∧ th.left + 1 ≤ s.begun ∧ th.left < s.gens ∧ s.begun = s.actions
+  | .unlock => th.arrived = th.left + 1 ∧ th.left + 1 ≤ s.begun ∧ th.left < s.gens ∧ s.begun = s.actions
   | .finished => th.arrived = th.left ∧ th.left = s.gens
   | .mSpawn _ | .mJoin _ => False
 
@@ -134,24 +140,49 @@ def mainOk (s : State) (th : Thread) : Prop :=
   | .finished => s.spawned = s.n
   | _ => False
 
+/-- the last arriver before it has called `notify_all`: inside the action, or about to notify -/
+def nfy : Pc → Bool
+  | .act _ | .notify => true
+  | _ => false
+
+@[simp] theorem nfy_act (j : Nat) : nfy (.act j) = true := rfl
+@[simp] theorem nfy_notify : nfy .notify = true := rfl
+@[simp] theorem nfy_cvwait (c : Nat) : nfy (.cvwait c) = false := rfl
+@[simp] theorem nfy_unlock : nfy .unlock = false := rfl
+@[simp] theorem nfy_start : nfy .start = false := rfl
+@[simp] theorem nfy_finished : nfy .finished = false := rfl
+@[simp] theorem nfy_mSpawn (i : Nat) : nfy (.mSpawn i) = false := rfl
+@[simp] theorem nfy_mJoin (i : Nat) : nfy (.mJoin i) = false := rfl
+@[simp] theorem nfy_lock : nfy .lock = false := rfl
+@[simp] theorem nfy_waiting (c : Nat) : nfy (.waiting c) = false := rfl
+
+@[simp] theorem holds_beginPc (s : State) : holds (beginPc s) = true := by unfold beginPc; split <;> rfl
+@[simp] theorem nfy_beginPc (s : State) : nfy (beginPc s) = true := by unfold beginPc; split <;> rfl
+
 structure Inv (s : State) : Prop where
   npos : 1 ≤ s.n
   len : s.thr.length = s.n + 1
   main : mainOk s (getT s.thr 0)
-  stepPar : s.step = s.actions % 2
+  stepPar : s.step = s.begun % 2
   mutex : ∀ t, (holds (getT s.thr t).pc = true ↔ s.owner = some t)
-  bnd : ∀ u, isBar s u → s.actions ≤ (getT s.thr u).arrived ∧ (getT s.thr u).arrived ≤ s.actions + 1 ∧
-          (getT s.thr u).left ≤ s.actions
+  bnd : ∀ u, isBar s u → s.begun ≤ (getT s.thr u).arrived ∧ (getT s.thr u).arrived ≤ s.begun + 1 ∧
+          (getT s.thr u).left ≤ s.begun
   pcs : ∀ u, isBar s u → pcOk s (getT s.thr u)
-  cnt : count s s.step = s.thr.countP fun th => decide (th.arrived = s.actions + 1)
+  cnt : count s s.step = s.thr.countP fun th => decide (th.arrived = s.begun + 1)
   cntLt : count s s.step < s.n
-  old : 1 ≤ s.actions → count s (1 - s.step) = s.n
+  old : 1 ≤ s.begun → count s (1 - s.step) = s.n
   wsNodup : s.ws.Nodup
   wsPc : ∀ u, u ∈ s.ws → isBar s u ∧ ∃ cur, (getT s.thr u).pc = .waiting cur
-  wsGen : (∃ t, isBar s t ∧ (getT s.thr t).pc = .notify) ∨ ∀ u, u ∈ s.ws → (getT s.thr u).left = s.actions
+  wsGen : (∃ t, isBar s t ∧ nfy (getT s.thr t).pc = true) ∨ ∀ u, u ∈ s.ws → (getT s.thr u).left = s.begun
+  /-- actions ended ≤ actions begun ≤ actions ended + 1 -/
+  ae : s.actions ≤ s.begun ∧ s.begun ≤ s.actions + 1
+  /-- an action is in progress only while its thread holds the mutex -/
+  aeNone : s.owner = none → s.begun = s.actions
+  /-- nobody has left a generation whose action has not ended -/
+  leftEnd : ∀ u, isBar s u → (getT s.thr u).left ≤ s.actions
 
-theorem getT_init (n gens u : Nat) :
-    getT (BarM.init n gens).thr u = if u ≤ n then { pc := .start } else dflt := by
+theorem getT_init (n gens ay u : Nat) :
+    getT (BarM.init n gens ay).thr u = if u ≤ n then { pc := .start } else dflt := by
   unfold getT BarM.init
   simp only [List.getD_eq_getElem?_getD]
   cases u with
@@ -162,8 +193,8 @@ theorem getT_init (n gens u : Nat) :
     · simp [h]; omega
     · simp [h]; omega
 
-theorem inv_init (n gens : Nat) (hn : 1 ≤ n) : Inv (BarM.init n gens) := by
-  refine ⟨hn, by simp [BarM.init], ?_, rfl, ?_, ?_, ?_, ?_, ?_, ?_, ?_, ?_, ?_⟩
+theorem inv_init (n gens ay : Nat) (hn : 1 ≤ n) : Inv (BarM.init n gens ay) := by
+  refine ⟨hn, by simp [BarM.init], ?_, rfl, ?_, ?_, ?_, ?_, ?_, ?_, ?_, ?_, ?_, by simp [BarM.init], by simp [BarM.init], ?_⟩
   · rw [getT_init]; simp [mainOk, BarM.init]
   · intro t; rw [getT_init]; by_cases h : t ≤ n <;> simp [h, dflt, BarM.init]
   · intro u hu; rw [getT_init]; simp [BarM.init, isBar] at hu ⊢; simp [hu.2]
@@ -174,6 +205,7 @@ theorem inv_init (n gens : Nat) (hn : 1 ≤ n) : Inv (BarM.init n gens) := by
   · simp [BarM.init]
   · simp [BarM.init]
   · right; simp [BarM.init]
+  · intro u hu; rw [getT_init]; simp [BarM.init, isBar] at hu ⊢; simp [hu.2]
 
 theorem step_le_one {s : State} (hi : Inv s) : s.step ≤ 1 := by rw [hi.stepPar]; omega
 
@@ -216,14 +248,14 @@ theorem other_par {a : Nat} : other (a % 2) = (a + 1) % 2 := by
   unfold other; split <;> omega
 
 theorem stepPar_step {s : State} {t c : Nat} {o} (h : step s t c = some o) (hi : Inv s) :
-    o.st.step = o.st.actions % 2 := by
+    o.st.step = o.st.begun % 2 := by
   have hp := hi.stepPar
   barm_step_cases h
   all_goals (first | (simp; exact hp) | (simp; rw [hp]; exact other_par))
 
 /-- a barrier thread about to arrive (`lock`) is in the current generation -/
 theorem lock_cur {s : State} (hi : Inv s) {u : Nat} (hb : isBar s u) (hpc : (getT s.thr u).pc = .lock) :
-    (getT s.thr u).arrived = s.actions ∧ (getT s.thr u).left = s.actions := by
+    (getT s.thr u).arrived = s.begun ∧ (getT s.thr u).left = s.begun := by
   have h1 := hi.bnd u hb
   have h2 := hi.pcs u hb
   simp [pcOk, hpc] at h2
@@ -231,7 +263,7 @@ theorem lock_cur {s : State} (hi : Inv s) {u : Nat} (hb : isBar s u) (hpc : (get
 
 /-- the stepping thread is a barrier thread unless it is at a main-thread pc -/
 theorem isBar_of_pc {s : State} (hi : Inv s) {t : Nat} (hlt : t < s.thr.length)
-    (hpc : match (getT s.thr t).pc with | .lock | .cvwait _ | .waiting _ | .notify | .unlock => True | _ => False) :
+    (hpc : match (getT s.thr t).pc with | .lock | .cvwait _ | .waiting _ | .act _ | .notify | .unlock => True | _ => False) :
     isBar s t := by
   have hlen := hi.len
   by_cases h0 : t = 0
@@ -253,7 +285,7 @@ theorem cntLt_step {s : State} {t c : Nat} {o} (h : step s t c = some o) (hi : I
     rcases hs' with h0 | h1 <;> simp_all [count, setCount, other] <;> omega)
 
 theorem old_step {s : State} {t c : Nat} {o} (h : step s t c = some o) (hi : Inv s) :
-    1 ≤ o.st.actions → count o.st (1 - o.st.step) = o.st.n := by
+    1 ≤ o.st.begun → count o.st (1 - o.st.step) = o.st.n := by
   have hp := hi.old
   have hc := hi.cntLt
   have hn := hi.npos
@@ -303,7 +335,7 @@ theorem all_of_countP {thr : List Thread} {n : Nat} {p : Thread → Bool} (hlen 
 
 
 theorem cnt_step {s : State} {t c : Nat} {o} (h : step s t c = some o) (hi : Inv s) :
-    count o.st o.st.step = o.st.thr.countP fun th => decide (th.arrived = o.st.actions + 1) := by
+    count o.st o.st.step = o.st.thr.countP fun th => decide (th.arrived = o.st.begun + 1) := by
   have hp := hi.cnt
   have hs := step_le_one hi
   have hlen := hi.len
@@ -312,23 +344,23 @@ theorem cnt_step {s : State} {t c : Nat} {o} (h : step s t c = some o) (hi : Inv
     have hlt := lt_of_getElem? ‹s.thr[t]? = some _›
     have hth := getT_of_getElem? ‹s.thr[t]? = some _›)
   all_goals (first
-    | (simp only [upd_thr, upd_count, upd_step, upd_actions]
+    | (simp only [upd_thr, upd_count, upd_step, upd_begun]
        rw [countP_modify_same _ _ (by intro x; rfl)]; exact hp)
     | skip)
   · -- arrival that does not complete the generation
     have hb : isBar s t := isBar_of_pc hi hlt (by simp [*])
     have hcur := lock_cur hi hb (by simp [*])
-    have hcm := countP_modify (fun th : Thread => decide (th.arrived = s.actions + 1))
+    have hcm := countP_modify (fun th : Thread => decide (th.arrived = s.begun + 1))
       (fun th => { th with pc := Pc.cvwait s.step, arrived := th.arrived + 1 }) s.thr t hlt
     rw [getElem_eq_getT hlt] at hcm
-    simp only [upd_thr, upd_count, upd_step, upd_actions, setCount_thr, setCount_step, setCount_actions]
+    simp only [upd_thr, upd_count, upd_step, upd_begun, setCount_thr, setCount_step, setCount_begun]
     rw [count_setCount _ _ _ _ hs hs]
     simp [hcur.1] at hcm
     simp
     rw [hp]
     exact hcm.symm
   · -- last arrival: flip
-    simp only [upd_thr, upd_count, upd_step, upd_actions, setCount_thr, setCount_step, setCount_actions]
+    simp only [upd_thr, upd_count, upd_step, upd_begun, setCount_thr, setCount_step, setCount_begun]
     have ho : other s.step ≤ 1 := by unfold other; split <;> omega
     rw [count_setCount _ _ _ _ ho ho]
     simp only [if_true]
@@ -336,7 +368,7 @@ theorem cnt_step {s : State} {t c : Nat} {o} (h : step s t c = some o) (hi : Inv
     apply countP_eq_zero_of_getT
     intro u hu
     rw [getT_modify]
-    have hlen' : (s.thr.modify t fun th => { th with pc := Pc.notify, arrived := th.arrived + 1 }).length = s.thr.length := by simp
+    have hlen' : (s.thr.modify t fun th => { th with pc := beginPc s, arrived := th.arrived + 1 }).length = s.thr.length := by simp
     rw [hlen'] at hu
     have hb : isBar s t := isBar_of_pc hi hlt (by simp [*])
     have hcur := lock_cur hi hb (by simp [*])
@@ -350,8 +382,8 @@ theorem cnt_step {s : State} {t c : Nat} {o} (h : step s t c = some o) (hi : Inv
 
 
 theorem bnd_step {s : State} {t c : Nat} {o} (h : step s t c = some o) (hi : Inv s) :
-    ∀ u, isBar o.st u → o.st.actions ≤ (getT o.st.thr u).arrived ∧ (getT o.st.thr u).arrived ≤ o.st.actions + 1 ∧
-          (getT o.st.thr u).left ≤ o.st.actions := by
+    ∀ u, isBar o.st u → o.st.begun ≤ (getT o.st.thr u).arrived ∧ (getT o.st.thr u).arrived ≤ o.st.begun + 1 ∧
+          (getT o.st.thr u).left ≤ o.st.begun := by
   have hp := hi.bnd
   have hpc := hi.pcs
   have hs := step_le_one hi
@@ -365,9 +397,9 @@ theorem bnd_step {s : State} {t c : Nat} {o} (h : step s t c = some o) (hi : Inv
        have hu' : isBar s u := hu
        have h1 := hp u hu'
        have h2 := hpc u hu'
-       simp only [upd_thr, setCount_thr, getT_modify, upd_actions, setCount_actions]
+       simp only [upd_thr, setCount_thr, getT_modify, upd_begun, setCount_begun]
        by_cases hut : t = u
-       · subst hut; simp_all [pcOk]; done
+       · subst hut; simp_all [pcOk] <;> omega
        · simp_all; done)
     | skip)
   · -- arrival that does not complete the generation
@@ -375,20 +407,20 @@ theorem bnd_step {s : State} {t c : Nat} {o} (h : step s t c = some o) (hi : Inv
     have hcur := lock_cur hi hb (by simp [*])
     intro u hu
     have h1 := hp u hu
-    simp only [upd_thr, setCount_thr, getT_modify, upd_actions, setCount_actions]
+    simp only [upd_thr, setCount_thr, getT_modify, upd_begun, setCount_begun]
     by_cases hut : t = u
     · subst hut; simp [hlt]; omega
     · simp [hut]; exact h1
   · -- last arrival: everybody has arrived in this generation
     have hb : isBar s t := isBar_of_pc hi hlt (by simp [*])
     have hcur := lock_cur hi hb (by simp [*])
-    have hcm := countP_modify (fun th : Thread => decide (th.arrived = s.actions + 1))
-      (fun th => { th with pc := Pc.notify, arrived := th.arrived + 1 }) s.thr t hlt
+    have hcm := countP_modify (fun th : Thread => decide (th.arrived = s.begun + 1))
+      (fun th => { th with pc := beginPc s, arrived := th.arrived + 1 }) s.thr t hlt
     rw [getElem_eq_getT hlt] at hcm
     simp [hcur.1] at hcm
     have hcnt := hi.cnt
-    have hall := all_of_countP (p := fun th : Thread => decide (th.arrived = s.actions + 1))
-      (thr := s.thr.modify t fun th => { th with pc := Pc.notify, arrived := th.arrived + 1 }) (n := s.n)
+    have hall := all_of_countP (p := fun th : Thread => decide (th.arrived = s.begun + 1))
+      (thr := s.thr.modify t fun th => { th with pc := beginPc s, arrived := th.arrived + 1 }) (n := s.n)
       (by simp [hlen])
       (by
         rw [getT_modify]
@@ -400,7 +432,7 @@ theorem bnd_step {s : State} {t c : Nat} {o} (h : step s t c = some o) (hi : Inv
     intro u hu
     have h1 := hp u hu
     have h3 := hall u hu.1 hu.2
-    simp only [upd_thr, setCount_thr, upd_actions, setCount_actions]
+    simp only [upd_thr, setCount_thr, upd_begun, setCount_begun]
     simp at h3
     rw [h3]
     refine ⟨by omega, by omega, ?_⟩
@@ -413,20 +445,20 @@ theorem bnd_step {s : State} {t c : Nat} {o} (h : step s t c = some o) (hi : Inv
 /-- a waiter sees `counts_[cur] < n` exactly while its generation is still the current one -/
 theorem waiting_gen {s : State} (hi : Inv s) {u cur : Nat} (hb : isBar s u)
     (hpc : (getT s.thr u).pc = .waiting cur) :
-    (count s cur < s.n → (getT s.thr u).left = s.actions) ∧
-    (¬ count s cur < s.n → (getT s.thr u).left + 1 = s.actions) := by
+    (count s cur < s.n → (getT s.thr u).left = s.begun) ∧
+    (¬ count s cur < s.n → (getT s.thr u).left + 1 = s.begun) := by
   have h1 := hi.bnd u hb
   have h2 := hi.pcs u hb
   simp [pcOk, hpc] at h2
   have hsp := hi.stepPar
   have hlt := hi.cntLt
   have hold := hi.old
-  have hcase : (getT s.thr u).left = s.actions ∨ (getT s.thr u).left + 1 = s.actions := by omega
+  have hcase : (getT s.thr u).left = s.begun ∨ (getT s.thr u).left + 1 = s.begun := by omega
   rcases hcase with hc | hc
   · have : cur = s.step := by rw [hsp, h2.2.1, hc]
     subst this
     exact ⟨fun _ => hc, fun h => absurd hlt h⟩
-  · have h1a : 1 ≤ s.actions := by omega
+  · have h1a : 1 ≤ s.begun := by omega
     have : cur = 1 - s.step := by rw [hsp, h2.2.1]; omega
     subst this
     have := hold h1a
@@ -439,6 +471,8 @@ theorem pcs_step {s : State} {t c : Nat} {o} (h : step s t c = some o) (hi : Inv
   have hs := step_le_one hi
   have hlen := hi.len
   have hmain := hi.main
+  have hae := hi.ae
+  have haeN := hi.aeNone
   barm_step_cases h
   all_goals (
     have hlt := lt_of_getElem? ‹s.thr[t]? = some _›
@@ -448,7 +482,7 @@ theorem pcs_step {s : State} {t c : Nat} {o} (h : step s t c = some o) (hi : Inv
        have hu' : isBar s u := hu
        have h1 := hp u hu'
        have h2 := hpc u hu'
-       simp only [upd_thr, setCount_thr, getT_modify, upd_actions, setCount_actions]
+       simp only [upd_thr, setCount_thr, getT_modify, upd_begun, setCount_begun]
        by_cases hut : t = u
        · subst hut; simp_all [pcOk, mainOk, isBar]; done
        · simp only [hut, false_and, if_false]; exact h2)
@@ -456,7 +490,7 @@ theorem pcs_step {s : State} {t c : Nat} {o} (h : step s t c = some o) (hi : Inv
        have hu' : isBar s u := hu
        have h1 := hp u hu'
        have h2 := hpc u hu'
-       simp only [upd_thr, setCount_thr, getT_modify, upd_actions, setCount_actions]
+       simp only [upd_thr, setCount_thr, getT_modify, upd_begun, setCount_begun]
        by_cases hut : t = u
        · subst hut; simp_all [pcOk, mainOk, isBar]; omega
        · simp only [hut, false_and, if_false]; exact h2)
@@ -482,23 +516,40 @@ theorem pcs_step {s : State} {t c : Nat} {o} (h : step s t c = some o) (hi : Inv
     have hmu := hi.mutex u
     simp only [upd_thr, setCount_thr, getT_modify]
     by_cases hut : t = u
-    · subst hut; simp_all [pcOk]; all_goals omega
+    · subst hut
+      have hba := haeN hown
+      unfold beginPc beginEnded
+      split <;> simp_all [pcOk] <;> omega
     · simp only [hut, false_and, if_false]
       rw [hown] at hmu
       unfold pcOk at h2 ⊢
       cases hpu : (getT s.thr u).pc <;> simp [hpu] at h2 hmu ⊢ <;> omega
-  all_goals (
-    have hb : isBar s t := isBar_of_pc hi hlt (by simp [*])
-    have hw := waiting_gen hi hb (by rw [hth]; assumption)
-    intro u hu
-    have hu' : isBar s u := hu
-    have h1 := hp u hu'
-    have h2 := hpc u hu'
-    simp only [upd_thr, setCount_thr, getT_modify, upd_actions, setCount_actions]
-    by_cases hut : t = u
-    · subst hut; simp_all [pcOk, mainOk, isBar]; all_goals omega
-    · simp only [hut, false_and, if_false]; exact h2)
-
+  all_goals first
+  | (have hb : isBar s t := isBar_of_pc hi hlt (by simp [*])
+     have hw := waiting_gen hi hb (by rw [hth]; assumption)
+     intro u hu
+     have hu' : isBar s u := hu
+     have h1 := hp u hu'
+     have h2 := hpc u hu'
+     simp only [upd_thr, setCount_thr, getT_modify, upd_begun, setCount_begun]
+     by_cases hut : t = u
+     · subst hut; simp_all [pcOk, mainOk, isBar]; all_goals omega
+     · simp only [hut, false_and, if_false]; exact h2)
+  | -- the action ends: its thread holds the mutex, the other threads are outside the critical section
+    (have hb : isBar s t := isBar_of_pc hi hlt (by simp [*])
+     have hpt := hpc t hb
+     have hmt := (hi.mutex t).mp (by rw [hth]; simp [*])
+     intro u hu
+     have hu' : isBar s u := hu
+     have h2 := hpc u hu'
+     have hmu := hi.mutex u
+     simp only [upd_thr, setCount_thr, getT_modify]
+     by_cases hut : t = u
+     · subst hut; simp_all [pcOk]
+     · simp only [hut, false_and, if_false]
+       rw [hmt] at hmu
+       unfold pcOk at h2 ⊢
+       cases hpu : (getT s.thr u).pc <;> simp [hpu, hut] at h2 hmu ⊢ <;> omega)
 
 theorem wsNodup_step {s : State} {t c : Nat} {o} (h : step s t c = some o) (hi : Inv s) : o.st.ws.Nodup := by
   have hp := hi.wsNodup
@@ -563,7 +614,7 @@ theorem wsPc_step {s : State} {t c : Nat} {o} (h : step s t c = some o) (hi : In
        simp only [hut, false_and, if_false]; exact ⟨cur, hc⟩))
 
 theorem wsGen_step {s : State} {t c : Nat} {o} (h : step s t c = some o) (hi : Inv s) :
-    (∃ x, isBar o.st x ∧ (getT o.st.thr x).pc = .notify) ∨ ∀ u, u ∈ o.st.ws → (getT o.st.thr u).left = o.st.actions := by
+    (∃ x, isBar o.st x ∧ nfy (getT o.st.thr x).pc = true) ∨ ∀ u, u ∈ o.st.ws → (getT o.st.thr u).left = o.st.begun := by
   have hnd := hi.wsNodup
   have hw := hi.wsPc
   have hg := hi.wsGen
@@ -589,7 +640,7 @@ theorem wsGen_step {s : State} {t c : Nat} {o} (h : step s t c = some o) (hi : I
          · simp only [hut, false_and, if_false]; exact hx
        · right
          intro u hu
-         simp only [upd_thr, setCount_thr, getT_modify, upd_actions, setCount_actions]
+         simp only [upd_thr, setCount_thr, getT_modify, upd_begun, setCount_begun]
          first
          | (have hu' : u ∈ s.ws := hu
             obtain ⟨_, cur, hc⟩ := hw u hu'
@@ -611,7 +662,7 @@ theorem wsGen_step {s : State} {t c : Nat} {o} (h : step s t c = some o) (hi : I
     · right
       intro u hu
       simp at hu
-      simp only [upd_thr, getT_modify, upd_actions]
+      simp only [upd_thr, getT_modify, upd_begun]
       by_cases hut : t = u
       · subst hut; simp [hlt]; rw [hth] at hpt; simp_all [pcOk]
       · simp only [hut, false_and, if_false]
@@ -631,10 +682,67 @@ theorem wsGen_step {s : State} {t c : Nat} {o} (h : step s t c = some o) (hi : I
       intro u hu
       have hu2 := (hnd.mem_erase_iff.mp hu)
       have hut : ¬ t = u := fun h => hu2.1 h.symm
-      simp only [upd_thr, getT_modify, upd_actions]
+      simp only [upd_thr, getT_modify, upd_begun]
       simp only [hut, false_and, if_false]
       exact hg u hu2.2)
 
+
+theorem le_beginEnded (s : State) : s.actions ≤ beginEnded s := by unfold beginEnded; split <;> omega
+
+theorem ae_step {s : State} {t c : Nat} {o} (h : step s t c = some o) (hi : Inv s) :
+    o.st.actions ≤ o.st.begun ∧ o.st.begun ≤ o.st.actions + 1 := by
+  have hae := hi.ae
+  have haeN := hi.aeNone
+  have hpc := hi.pcs
+  barm_step_cases h
+  all_goals (first | (simp; exact hae) | skip)
+  all_goals (
+    have hlt := lt_of_getElem? ‹s.thr[t]? = some _›
+    have hth := getT_of_getElem? ‹s.thr[t]? = some _›
+    have hb : isBar s t := isBar_of_pc hi hlt (by simp [*])
+    have hpt := hpc t hb)
+  · -- the action begins: the mutex was free, so no action was in progress
+    have hown : s.owner = none := by simpa using ‹s.owner.isNone = true›
+    have := haeN hown
+    simp [beginEnded]
+    split <;> omega
+  · -- the action ends
+    rw [hth] at hpt
+    simp_all [pcOk]
+
+theorem aeNone_step {s : State} {t c : Nat} {o} (h : step s t c = some o) (hi : Inv s) :
+    o.st.owner = none → o.st.begun = o.st.actions := by
+  have haeN := hi.aeNone
+  have hpc := hi.pcs
+  have hmut := hi.mutex
+  barm_step_cases h
+  all_goals (first | (simp; exact haeN) | (intro ho; simp at ho; done) | skip)
+  all_goals (
+    have hlt := lt_of_getElem? ‹s.thr[t]? = some _›
+    have hth := getT_of_getElem? ‹s.thr[t]? = some _›
+    have hb : isBar s t := isBar_of_pc hi hlt (by simp [*])
+    have hpt := hpc t hb
+    have hmt := (hmut t).mp (by rw [hth]; simp [*])
+    rw [hth] at hpt
+    simp_all [pcOk])
+
+theorem leftEnd_step {s : State} {t c : Nat} {o} (h : step s t c = some o) (hi : Inv s) :
+    ∀ u, isBar o.st u → (getT o.st.thr u).left ≤ o.st.actions := by
+  have hl := hi.leftEnd
+  have hpc := hi.pcs
+  barm_step_cases h
+  all_goals (
+    have hlt := lt_of_getElem? ‹s.thr[t]? = some _›
+    have hth := getT_of_getElem? ‹s.thr[t]? = some _›
+    intro u hu
+    have hu' : isBar s u := hu
+    have h1 := hl u hu'
+    have h2 := hpc u hu'
+    have h3 := le_beginEnded s
+    simp only [upd_thr, setCount_thr, getT_modify, upd_actions, setCount_actions]
+    by_cases hut : t = u
+    · subst hut; simp_all [pcOk] <;> omega
+    · simp only [hut, false_and, if_false]; first | exact h1 | omega)
 
 theorem inv_step {s : State} {t c : Nat} {o} (h : step s t c = some o) (hi : Inv s) : Inv o.st := by
   have hf := frame_step h
@@ -651,16 +759,19 @@ theorem inv_step {s : State} {t c : Nat} {o} (h : step s t c = some o) (hi : Inv
     old := old_step h hi
     wsNodup := wsNodup_step h hi
     wsPc := wsPc_step h hi
-    wsGen := wsGen_step h hi }
+    wsGen := wsGen_step h hi
+    ae := ae_step h hi
+    aeNone := aeNone_step h hi
+    leftEnd := leftEnd_step h hi }
 
 theorem reachable_inv {n gens : Nat} (hn : 1 ≤ n) {s : State} (h : Reachable n gens s) : Inv s := by
   induction h with
-  | init => exact inv_init n gens hn
+  | init ay => exact inv_init n gens ay hn
   | step _ hs ih => exact inv_step hs ih
 
 theorem reachable_params {n gens : Nat} {s : State} (h : Reachable n gens s) : s.n = n ∧ s.gens = gens := by
   induction h with
-  | init => exact ⟨rfl, rfl⟩
+  | init ay => exact ⟨rfl, rfl⟩
   | step _ hs ih => have := frame_step hs; exact ⟨this.1.trans ih.1, this.2.1.trans ih.2⟩
 
 /-- run a list of (thread, draw) choices; `none` if some chosen thread cannot step -/
